@@ -228,6 +228,7 @@ def real_attach(S, C):
         ('traversal_key', 'implies(tidx_has({S}, {C}.name), old(tidx_has({S}, {C}.name)) and '
                           'tidx_list({S}, {C}.name) is old(tidx_list({S}, {C}.name)))'.format(S=S, C=C)),
         ('other_traversal_kept', 'dict_same_except(%s.traversal_indexes, %s.name)' % (S, C)),
+        ('segment_last_index', 'seg_last_ok(%s.element, %s)' % (S, C)),
         ('sep', 'sep(%s)' % S),
     ]
 
@@ -253,7 +254,8 @@ ATTACH_MODIFIES = ['self.list[]', 'self.indexes{}', 'idx_list(self, child.name)[
 ATTACH_RAISES = {
     # C12: a rejected attach leaves the target's view unchanged; `no_half_attach` is the parent pointer of the child
     n: {'ensures': [('view_unchanged', UNCHANGED_VIEW),
-                    ('no_half_attach', 'child._parent is old(child._parent)')]}
+                    ('no_half_attach', 'child._parent is old(child._parent)')],
+        'modifies': ['child._parent', 'child._traversal_parent']}
     for n in ('ChildNotValid', 'ChildNotFound', 'MaxChildLimitReached', 'OperationNotAllowed')
 }
 
@@ -290,6 +292,7 @@ contract(
                                    'child._parent is old(child._parent) and '
                                    'child._traversal_parent is old(child._traversal_parent))'
          % (UNCHANGED_VIEW, UNCHANGED_TRAVERSAL)),
+        ('segment_last_index', 'seg_last_ok(self.element, child)'),
     ] + guard('not result', real_attach('self', 'child'), 'fresh') + [
         ('fresh.parent_set', 'implies(not result, child._parent is self.element and child._traversal_parent is None)'),
         ('sep', 'sep(self)'),
@@ -320,6 +323,7 @@ contract(
          ('traversal.only_traversal_index', 'implies(%s, %s)' % (ST_B, TRAV_APPENDED)),
          ('traversal.links_kept', 'implies(%s, child._parent is old(child._parent) and '
                                   'child._traversal_parent is self.element)' % ST_B),
+         ('segment_last_index', 'seg_last_ok(self.element, child)'),
          ('sep', 'sep(self)')]),
     raises=ATTACH_RAISES,
     modifies=ATTACH_MODIFIES,
@@ -359,6 +363,7 @@ contract(
         ('byname_object_kept', 'implies(old(idx_has(self, child.name)), idx_list(self, child.name) is old(idx_list(self, child.name)))'),
         ('byname_object_fresh', 'implies(not old(idx_has(self, child.name)), is_fresh(idx_list(self, child.name)))'),
         ('linked', 'child._parent is self.element'),
+        ('segment_last_index', 'seg_last_ok(self.element, child)'),
         ('sep', 'sep(self)'),
     ],
     raises=ATTACH_RAISES,
